@@ -139,6 +139,14 @@ def default_inputs(run, rng, focus):
     for i in range(120 if quick else 1500):
         L, R = gen.gen_dup_pair(rng)
         inputs.append((xml(L), xml(R), rng.choice([{}, {}, {'fast_match': True}, {'best_match': True}, {'F': 0.9}])))
+    # forced matchings (xml:id everywhere), the right document a rearrangement within and across parents
+    for i in range(80 if quick else 1200):
+        L, R = gen.gen_idperm_pair(rng)
+        inputs.append((xml(L), xml(R), rng.choice([{}, {}, {'fast_match': True}, {'best_match': True}])))
+    # near-duplicate paragraphs next to exact counterparts, nodes without any candidate between them
+    for i in range(60 if quick else 900):
+        L, R = gen.gen_neardup_pair(rng)
+        inputs.append((xml(L), xml(R), rng.choice([{'best_match': True}, {'best_match': True}, {}, {'fast_match': True}, {'F': 0.9, 'best_match': True}])))
     # documents that differ ONLY in where a comment stands among its sibling elements (or in a comment's text / tail)
     if focus in ("C03", "C01", "C05", "C17"):
         for a, b in COMMENT_SHIFT:
@@ -201,6 +209,11 @@ def default_inputs(run, rng, focus):
         for a, b in XMLID_STREAM:
             for o in ({}, {'fast_match': True}, {'best_match': True}):
                 inputs.append((a, b, o))
+    # xml:space="preserve": white space between elements is content there (lxml's remove_blank_text keeps it, and so
+    # must whatever the text-level entry points use to drop ignorable white space)
+    if focus in ("C03", "C01", "C14"):
+        for a, b in XMLSPACE_STREAM:
+            inputs.append((a, b, {}))
     # unique attribute values that differ only in padding / inner white space / NBSP / case: different values
     if focus == "C07":
         for a, b in (('<r><p id="a1">Jane Doe text</p><k/></r>', '<r><p id="a1 ">Jane Doe text</p><k/></r>'),
@@ -304,6 +317,13 @@ def finding_key(desc, prop, msg):
     return None
 
 
+XMLSPACE_STREAM = [
+    ('<r><pre xml:space="preserve"><b>x</b> <i>y</i></pre></r>', '<r><pre xml:space="preserve"><b>x</b><i>y</i></pre></r>'),
+    ('<r xml:space="preserve"><a/>\n<a/></r>', '<r xml:space="preserve"><a/><a/></r>'),
+    ('<r><p xml:space="preserve"> <b/> </p><q> <b/> </q></r>', '<r><p xml:space="preserve"> <b/> </p><q><b/></q></r>'),
+    ('<r><p xml:space="preserve"><b/>  <b/></p></r>', '<r><p xml:space="preserve"><b/> <b/></p></r>'),
+    ('<r><p xml:space="preserve"><b/> <c xml:space="default"> <d/> </c></p></r>', '<r><p xml:space="preserve"><b/><c xml:space="default"><d/></c></p></r>'),
+]
 EMPTY_VALUE_STREAM = [
     ('<r><input disabled="">t</input></r>', '<r><input readonly="">t</input></r>'),
     ('<r><a i="" j="">t</a><b k=""/></r>', '<r><a m="" j="">t</a><b n="" k="1"/></r>'),
@@ -739,7 +759,43 @@ def main(run, focus, extra_corr=None):
             (corr["cases"], len(corr["bad"]), stats["scripts"], stats["actions"], len(viols), focus))
     corrs = [corr] + (extra_corr(run, rng, pinfo) if extra_corr else [])
 
+    def near_disagreements():
+        """The inputs on which model and code disagree are where the code has changed behaviour: their neighbourhood
+        (the same pair under every option set, small edits of either document, the pair reversed, a sibling doubled)
+        is searched first for an input on which the property fails."""
+        r3 = random.Random(run.seed + 5)
+        seeds = [corr["describe"](i) for i in corr["bad"][:10]]
+        inp = []
+        for d in seeds:
+            lx, rx, o0 = d["left"], d["right"], {k: v for k, v in d["opts"].items() if not k.startswith("_")}
+            for o in [o0] + gen.OPTION_SETS + F_SETS + UNIQ_SETS[:3] + (IGN_SETS[:2] if focus in ("C13", "C03") else []):
+                inp.append((lx, rx, o))
+            inp.append((rx, lx, o0))
+            try:
+                L, R = etree.fromstring(lx), etree.fromstring(rx)
+            except Exception:  # noqa
+                continue
+            for _ in range(30):
+                L2 = gen.mutate_tree(r3, L, nops=r3.randint(1, 2)) if r3.random() < .5 else L
+                R2 = gen.mutate_tree(r3, R, nops=r3.randint(1, 2)) if (L2 is L or r3.random() < .5) else R
+                if r3.random() < .3:
+                    kids = [e for e in R2.iter() if isinstance(e.tag, str) and e.getparent() is not None]
+                    if kids:
+                        e = r3.choice(kids)
+                        e.addnext(deepcopy(e))
+                inp.append((xml(L2), xml(R2), r3.choice([o0, o0, {}, {'fast_match': True}, {'best_match': True}])))
+        b = [c for c in (differ_corr.build_case(*i) for i in inp) if c]
+        return evaluate(b, focus)[0]
+
     def deeper():
+        if corr["bad"]:
+            try:
+                near = [v for v in near_disagreements() if not v["replay"].get("finding_key")]
+            except Exception as ex:  # noqa
+                run.notes.append("search near the disagreeing inputs failed: %r" % ex)
+                near = []
+            if near:
+                return near
         r2 = random.Random(run.seed + 11)
         class T: tier = "thorough"
         t = T(); t.tier = "thorough"
